@@ -177,6 +177,38 @@ func c11Laws(c *fw.Ctx, label, side string, af *ast.File, df *dst.File, d2a map[
 			viol("edge-not-preserved", "edge-not-preserved:"+refl.TypeName(p)+">"+refl.TypeName(a), fmt.Sprintf("ast edge %s -> %s has no dst counterpart edge", refl.TypeName(p), refl.TypeName(a)))
 		}
 	}
+	// order: the pre-order of the ast tree, mapped, is the pre-order of the dst tree (the three ast
+	// nodes of a collapsed qualified identifier count once)
+	var mapped []dst.Node
+	for _, a := range aseq {
+		d := a2d[a]
+		if refl.IsNil(d) {
+			continue
+		}
+		if id, ok := d.(*dst.Ident); ok && id.Path != "" && len(mapped) > 0 && mapped[len(mapped)-1] == d {
+			continue
+		}
+		if id, ok := d.(*dst.Ident); ok && id.Path != "" && len(mapped) > 1 && mapped[len(mapped)-2] == d {
+			continue
+		}
+		mapped = append(mapped, d)
+	}
+	var dseq []dst.Node
+	dst.Inspect(df, func(n dst.Node) bool {
+		if n != nil {
+			dseq = append(dseq, n)
+		}
+		return true
+	})
+	if len(mapped) == len(dseq) {
+		for i := range mapped {
+			if mapped[i] != dseq[i] {
+				viol("order-not-preserved", "order-not-preserved:"+refl.TypeName(dseq[i]), fmt.Sprintf("position %d of the pre-order: the ast tree has the counterpart of a %s where the dst tree has a %s (children of one parent are in another order)", i, refl.TypeName(mapped[i]), refl.TypeName(dseq[i])))
+				break
+			}
+		}
+		c.Count(side+":preorders_compared", 1)
+	}
 	// whole-map laws (every entry, not only the nodes of the two trees): the maps are mutually
 	// inverse except where three ast nodes collapse onto one path-carrying identifier
 	for a, d := range a2d {
